@@ -233,6 +233,12 @@ def r5(ctx):
         else:
             ok = mentions_call(e, r"Duration::checked_mul$") and mentions_const(e, 2) and mentions_call(e, r"::min$") and mentions_field(e, "max_delay") and mentions_field(e, "last")
             ctx.check(ok, "backoff:double-and-clamp", "later delays = min(last.checked_mul(2), max_delay): %s" % expr_str(e)[:120], bd.where(b.idx), bad_detail="later delay = %s" % expr_str(e)[:140])
+            # the clamp is the LAST operation: the doubled value is what gets limited, not the value before doubling
+            is_max = lambda x: x[0] == "field" and x[2] == "max_delay"
+            r_ = strip_passthrough(e)
+            clamp_last = (r_[0] == "call" and re.search(r"::(min|clamp)$", r_[1] or "") and any(is_max(strip_passthrough(a)) for a in r_[2]) and any(mentions_call(a, r"checked_mul$|saturating_mul$|::mul$") for a in r_[2])) or is_max(r_) \
+                or any(g.kind == "rel" and g.op in ("Le", "Lt") and mentions_field(g.b, "max_delay") and mentions_call(g.a, r"mul$") for g in gs)
+            ctx.check(clamp_last, "backoff:clamp-after-double", "the limit max_delay is applied to the doubled delay", bd.where(b.idx), bad_detail="the delay returned is `%s`: max_delay is not applied to the doubled value, so a retry delay can exceed the configured maximum" % expr_str(e)[:140])
     ws = field_writes(bd, "last")
     ctx.check(len(ws) == 2, "backoff:stores-last", "both arms store the delay in `last`", bd.where(line=bd.line))
     fb = prog.body("master::association::AutoTaskState::failure")
